@@ -26,6 +26,9 @@ impl HashOut64 {
     pub uninterp spec fn bytes(&self) -> Seq<u8>;
     #[verifier::external_body]
     pub fn as_slice(&self) -> (r: &[u8]) ensures r@ == self.bytes(), r@.len() == 64 { unimplemented!() }
+    // GenericArray<u8, U64> -> [u8; 64]
+    #[verifier::external_body]
+    pub fn into(self) -> (r: [u8; 64]) ensures r@ == self.bytes() { unimplemented!() }
 }
 impl Blake2bMac512 {
     // digest::FixedOutput::finalize_fixed: the 64-byte MAC value
